@@ -2,7 +2,7 @@
 
 Vocabulary (identical to Merge.tla):
   case  = {cells: [cellA, cellB], mdoc, place, order}
-  cell  = {rk, sk, rdoc, sdoc, rann, sann, sret, rpar, spar, rov, sov, irk, isk, ibare}
+  cell  = {rk, rtg (runtime member declared under `if typing.TYPE_CHECKING:`), sk, rdoc, sdoc, rann, sann, sret, rpar, spar, rov, sov, irk, isk, ibare}
           rpar in two|none (runtime function has parameters p, q / none); spar in same|diff|none (stub: p, q / p, r / none)
           rk in abs|cls|fun|att|al_ext|al_fun|al_cls|al_att      (runtime side of the name)
           sk in abs|cls|fun|att|al|al_fun|ovo                     (stub side; ovo = @overload signatures only; al: import of an
@@ -122,6 +122,7 @@ def render_side(case: dict, side: str) -> str:
         out.append(f'"""{side} doc mod"""')
     out.append("import typing")
     for name, c in zip(NAMES, case["cells"]):
+        start = len(out)
         if not stub:
             k = c["rk"]
             doc = f"rt doc {name}" if c["rdoc"] else None
@@ -157,6 +158,9 @@ def render_side(case: dict, side: str) -> str:
                 out.append(f"from tgt import fn_{name} as {name}")
             elif k == "ovo":
                 out += _ovo(name, ["p", "q"], "", False)
+        if not stub and c.get("rtg") and len(out) > start:
+            # declared under `if TYPE_CHECKING:`: the visitor builds the member (and what it contains) with runtime = False
+            out[start:] = ["if typing.TYPE_CHECKING:"] + ["    " + line for line in out[start:]]
     return "\n".join(out) + "\n"
 
 
